@@ -3436,6 +3436,7 @@ THEOREMS.update({
                                "Dirk.C06_lock_state_fault_att", "Dirk.C06_lock_state_fault_prop", "Dirk.C06_lock_state_fault_sign",
                                "Dirk.C06_lock_state_fault_atts", "Dirk.C06_lock_state_fault_msign",
                                "Dirk.C06_unruled_atts", "Dirk.C06_unruled_msign", "Dirk.C06_unruled_is_prefix",
+                               "Dirk.C06_kernel_is_source", "Dirk.signLoopBound_is_rules_results",
                                "Dirk.facts_rules_results", "Dirk.facts_result_switches_total", "Dirk.facts_result_switches_present"]),
 })
 
